@@ -11,19 +11,23 @@ PROPERTY = 'C04'
 LEVEL = 'exploration'
 ENGINE = 'E1'
 TECHNIQUE = ('bounded-exhaustive enumeration of (payload x identity tuple x section kind x plug-in configuration x parser '
-             'behaviour) through the real parsePEL with fixture parser modules served by a meta_path finder; oracle = JSON '
-             'value identity, reference text-line model, independent hex-dump reader')
+             'behaviour) through the real parsePEL with fixture parser modules served by a meta_path finder, plus arbitrary '
+             'bytes (all single bytes, all pairs/triples over 24 symbols, ~100 shaped payloads) offered to the built-in JSON/text '
+             'formats and to the shipped JSON-returning plug-in; oracle = reference model of the built-in formats (value / text '
+             'lines / exact hex dump), independent hex-dump reader, RFC 8259 reading of the document')
 LEVEL_TEXT = ('All payload lengths 1..48 and the boundary lengths, every boundary byte at every column, the complete '
               'identity-tuple product and every parser behaviour (object, list, string, None, JSON null, empty, raising, '
               'ImportError in the call, import failure, absent) are run through the real decoder; whenever no decoder '
               'applies the payload must come back from the section\'s Data lines via a reader that shares no code with '
               'pel.hexdump. Built-in JSON/text formats are compared with the value/lines computed from the source text.')
-LEVEL_NOTE = ('payloads beyond the patterns are not explored; built-in payloads that are not valid UTF-8/JSON and parsers '
-              'returning malformed JSON text are outside the statement; leading/trailing whitespace of a text payload may '
-              'be shown or trimmed')
+LEVEL_NOTE = ('payloads beyond the patterns and alphabets are not explored; what a section shows when its parser returns text '
+              'that is not JSON (or cannot be printed as JSON) is not constrained beyond the PEL still decoding; only the '
+              'trailing NUL padding of a text payload may be dropped')
 RULE = ('PEL = PH UH <section> MT; section kinds UD, ED, 9 hexdump-only types, 4 unknown ids; payload lengths '
         '1..48,255,256,4095,65527 x 3 patterns + boundary bytes x 16 columns; identity = 12 creators x 7 components x 11 '
-        'subtypes x 4 versions x plugins on/off; 11 parser behaviours x UD/ED x 3 creators x 4 payloads; built-in JSON = '
+        'subtypes x 4 versions x plugins on/off; 19 parser behaviours (incl. load failures and unprintable output) x UD/ED x 3 creators x 4 payloads; '
+        'built-in formats x {256 single bytes, 24^2 pairs (thorough 24^3 triples), shaped payloads: not UTF-8, not JSON, NaN/Infinity/1e999, '
+        'huge integers, nesting 10..20000}; shipped oe500 sub-type 3 x 28 JSON payloads; built-in JSON = '
         '9 value shapes x NUL pad 0..3 x trailing blanks; built-in text = all strings <= 4 over a 12-symbol alphabet (incl. every character str.splitlines would also break on) + '
         'long lines. Non-trivial: every case (payload non-empty); distinct by case spec.')
 ASSUMPTIONS = ['a parser returning JSON null or an empty string "returns nothing"']
